@@ -1,8 +1,11 @@
 package msgpackpatch
 
 import (
+	"bytes"
 	"errors"
 	"fmt"
+
+	"github.com/vmihailenco/msgpack/v5"
 )
 
 // OpKind identifies a mutation operation.
@@ -58,6 +61,17 @@ func Apply(blob []byte, ops []Op) ([]byte, error) {
 }
 
 func applyOp(skel *Skeleton, orig []byte, op Op, path *Path) error {
+	// Values that can end up spliced into the blob must be exactly one
+	// well-formed msgpack value, otherwise the "patched" body no longer decodes.
+	// (An empty Value is reported by each op as ErrInvalidOp.)
+	switch op.Kind {
+	case OpSet, OpInc, OpAppend, OpPrepend, OpMerge:
+		if len(op.Value) > 0 {
+			if err := validateValue(op.Value); err != nil {
+				return err
+			}
+		}
+	}
 	switch op.Kind {
 	case OpSet:
 		return applySet(skel, op, path)
@@ -78,6 +92,20 @@ func applyOp(skel *Skeleton, orig []byte, op Op, path *Path) error {
 	default:
 		return fmt.Errorf("%w: unknown kind %d", ErrInvalidOp, op.Kind)
 	}
+}
+
+// validateValue checks that raw holds exactly one complete msgpack value with
+// no trailing bytes. It walks the value structurally without decoding leaves.
+func validateValue(raw []byte) error {
+	r := bytes.NewReader(raw)
+	dec := msgpack.NewDecoder(r)
+	if err := dec.Skip(); err != nil {
+		return fmt.Errorf("%w: op value: %v", ErrInvalidMsgpack, err)
+	}
+	if r.Len() != 0 {
+		return fmt.Errorf("%w: op value has %d trailing bytes", ErrInvalidMsgpack, r.Len())
+	}
+	return nil
 }
 
 func opName(k OpKind) string {
